@@ -101,6 +101,13 @@ UpdOddFinger(r) ==
   ELSE IF r.prog.x = "pointer-source-fault" THEN       \* string -> int without a custom function below an update method with a pointer source: must be refused
        (IF r.gen = "ok" THEN {<<"C03", "accepted-inconvertible", "update-pointer-source", r.id>>, <<"C17", "failing-input-reported-as-success", "update-pointer-source", r.id>>} ELSE {})
   ELSE IF r.gen = "ok" /\ ~r.compiles THEN {<<"C01", "does-not-compile", "update-" \o r.prog.x, r.id>>} ELSE {}
+\* C01 / C07: `default FUNC` (FUNC without error result) on Conv(source UWS) (UWT, error) whose field conversion fails: the output
+\* compiles (the error branch returns a value of the declared result type) and the error arrives
+DefFallibleFinger(r) ==
+  IF r.gen = "panic" THEN {<<"C13", "generator-panic", r.why, r.id>>}
+  ELSE IF r.gen # "ok" THEN {<<"C11", "default-constructor-program-rejected", "fallible-field", r.id>>}
+  ELSE IF ~r.compiles THEN {<<"C01", "does-not-compile", "default-fallible", r.id>>}
+  ELSE IF r.err = "" THEN {<<"C07", "error-dropped", "default-fallible", r.id>>} ELSE {}
 \* C11, default constructors: res = [nil, A, B] of the returned struct (nil: a nil pointer was returned)
 DMatch(e, got) == e = -1 \/ e = got
 DefFinger(r) ==
@@ -122,7 +129,7 @@ Finger18(r) ==
        \cup (IF \E i \in DOMAIN r.decls : r.decls[i] \notin {"struct", "method"} THEN {<<"C18", "extra-top-level-declaration", r.kind, r.id>>} ELSE {})
 Finger0(r) == IF r.kind = "genfile" THEN {}
               ELSE IF r.kind = "update-iface" THEN (IF r.gen = "ok" /\ r.compiles THEN {} ELSE {<<"C10", "update-method-rejected", "interface-member", r.id>>})
-              ELSE IF r.kind = "field" THEN FieldFinger(r) ELSE IF r.kind = "acc" THEN AccFinger(r) ELSE IF r.kind = "fieldx" THEN XFinger(r) ELSE IF r.kind = "default-rebuild" THEN RebuildFinger(r) ELSE IF r.kind = "default-list" THEN ListFinger(r) ELSE IF r.kind = "default-map" THEN MapFinger(r) ELSE IF r.kind \in {"update-wrap", "mapfunc-wrap"} THEN UpdWrapFinger(r) ELSE IF r.kind = "update-odd" THEN UpdOddFinger(r) ELSE IF r.kind = "mapfunc-parent" THEN MapFuncFinger(r) ELSE IF r.kind \in {"default-update-rec", "default-update-shared"} THEN UpdRecFinger(r) ELSE IF r.kind = "default" THEN DefFinger(r) ELSE UpdFinger(r)
+              ELSE IF r.kind = "field" THEN FieldFinger(r) ELSE IF r.kind = "acc" THEN AccFinger(r) ELSE IF r.kind = "fieldx" THEN XFinger(r) ELSE IF r.kind = "default-rebuild" THEN RebuildFinger(r) ELSE IF r.kind = "default-list" THEN ListFinger(r) ELSE IF r.kind = "default-map" THEN MapFinger(r) ELSE IF r.kind = "default-fallible" THEN DefFallibleFinger(r) ELSE IF r.kind \in {"update-wrap", "mapfunc-wrap"} THEN UpdWrapFinger(r) ELSE IF r.kind = "update-odd" THEN UpdOddFinger(r) ELSE IF r.kind = "mapfunc-parent" THEN MapFuncFinger(r) ELSE IF r.kind \in {"default-update-rec", "default-update-shared"} THEN UpdRecFinger(r) ELSE IF r.kind = "default" THEN DefFinger(r) ELSE UpdFinger(r)
 \* C02: no executed method of this family may panic (nil intermediate pointers, nil sources, zero fields are among the inputs)
 PanicFinger(r) == IF "panic" \in DOMAIN r /\ r.panic = TRUE /\ r.gen = "ok" THEN {<<"C02", "panic", "struct-family-" \o r.kind, r.id>>} ELSE {}
 VARIABLES l, bad
